@@ -16,6 +16,7 @@ mod obs;
 mod props;
 mod refpath;
 mod sandbox;
+mod sched;
 mod strgen;
 
 use engine::*;
